@@ -86,6 +86,8 @@ func (m *c13model) eval(n *Node, ch thunk) []string {
 		return []string{"w:" + n.S, "/w"}
 	case "passdown":
 		return cat([]string{"w:" + n.S}, m.eval(kids(0), ch), []string{"/w"})
+	case "passdowntwice":
+		return cat([]string{"w:" + n.S}, m.eval(kids(0), func() []string { return cat(children(), children()) }), []string{"/w"})
 	case "slotaround":
 		return cat([]string{"w:" + n.S}, m.eval(kids(0), nil), children(), m.eval(kids(1), nil), []string{"/w"})
 	case "hwchildren":
@@ -195,7 +197,7 @@ func (g *c13gen) callee(budget *int, depth int) *Node {
 	t := g.t
 	// templ.Join is never *given* a block: what its elements should then receive is not
 	// defined by the statement (it passes its context on), so that shape is not judged.
-	kinds := []string{"slot", "slot", "slottwice", "noslot", "passdown", "slotaround", "hwchildren", "flushcallee", "hwwrapslot", "oncecallee", "hwignore", "raw", "join", "hwforward", "hwnonce", "hwclear", "hwchildrenbuf"}
+	kinds := []string{"slot", "slot", "slottwice", "noslot", "passdown", "passdowntwice", "slotaround", "hwchildren", "flushcallee", "hwwrapslot", "oncecallee", "hwignore", "raw", "join", "hwforward", "hwnonce", "hwclear", "hwchildrenbuf"}
 	k := kinds[t.Choose(len(kinds), "calleekind")]
 	switch k {
 	case "slot", "slottwice", "noslot", "hwignore", "hwchildrenbuf":
@@ -204,7 +206,7 @@ func (g *c13gen) callee(budget *int, depth int) *Node {
 		return &Node{K: "raw", S: "r"}
 	case "hwchildren":
 		return &Node{K: k, S: g.id("h"), N: t.Range(0, 2, "times")}
-	case "passdown":
+	case "passdown", "passdowntwice":
 		return &Node{K: k, S: g.id("p"), Kids: []*Node{g.callee(budget, depth+1)}}
 	case "slotaround":
 		return &Node{K: k, S: g.id("a"), Kids: []*Node{g.node(budget, depth+1), g.node(budget, depth+1)}}
